@@ -50,6 +50,7 @@ class Corpus(object):
         self.workdir = tempfile.mkdtemp(prefix='prophy-verif-')
         self.types = []      # Case per message type
         self.nodes = {}      # sidx -> prophyc nodes
+        self.mods = {}       # sidx -> generated module
         self.schemas = {}
         gen_kwargs = gen_kwargs or {}
         tid = 0
@@ -58,6 +59,7 @@ class Corpus(object):
             sc = parse_corpus()
             nodes, mod = py_impl.compile_prophy(CORPUS_TEXT, self.workdir, 'corpus')
             self.nodes[sidx] = nodes
+            self.mods[sidx] = mod
             self.schemas[sidx] = sc
             for name in S.type_names(sc):
                 self.types.append(Case(sidx, CORPUS_TEXT, name, S.tree(sc, name), getattr(mod, name), tid))
@@ -69,6 +71,7 @@ class Corpus(object):
             text = S.to_prophy(sc)
             nodes, mod = py_impl.compile_prophy(text, self.workdir, 's%d' % i)
             self.nodes[sidx] = nodes
+            self.mods[sidx] = mod
             self.schemas[sidx] = sc
             for name in S.type_names(sc):
                 tr = S.tree(sc, name)
